@@ -124,3 +124,14 @@ def BPS(n, bullets=(0, 1, 5, 8), npairs=1, pmults=(5, 8, 13)):
             for ms in itertools.product(pmults, repeat=npairs):
                 if sum(bs) + sum(ms) >= n:
                     yield tuple(base + [(m, p) for m, p in zip(ms, combo)])
+
+
+def HUGE(n=3, base=100000, types=3):
+    """piles of about `base` identical ballots: `types` distinct rankings of R(n,2), each with a multiplier in {base-1, base, base+1}.
+    With tallies of 10^5 a surplus of one vote is a fraction below 10^-5 of the tally: re-valued ballots truncate to exactly zero under the
+    5-digit rules, surpluses of a few units and tallies equal to the threshold in every decimal occur -- events that need tens of ballots
+    otherwise."""
+    R = rankings(n, 2)
+    for combo in itertools.combinations(range(len(R)), types):
+        for ms in itertools.product((base - 1, base, base + 1), repeat=types):
+            yield tuple((m, R[i]) for m, i in zip(ms, combo))
